@@ -223,29 +223,45 @@ def run(P: Program, R: Report, tier: str) -> None:
     en, dis = tracks.methods["enable_features"], tracks.methods["disable_features"]
 
     def closure_of(f):
-        """(function, name of the requested-keys collection in it) for f and the Tracks helpers it hands the keys to"""
-        out = [(f, f.params[1])]
+        """(function, name of the requested-keys collection in it, name of the feature registry in it) for f and the
+        internal helpers it hands the keys to"""
+        out = [(f, f.params[1], "self.features")]
+        env = P.local_env(f)
         for c in ast.walk(f.node):
-            if isinstance(c, ast.Call) and isinstance(c.func, ast.Attribute) and norm(c.func.value) == "self":
-                h = P.lookup_method(tracks.qname, c.func.attr)
-                if h is None or h is f:
-                    continue
-                hp = [p_ for p_ in h.params if p_ != "self"]
-                for i, a_ in enumerate(c.args):
-                    if norm(a_) in (f.params[1], f"[{f.params[1]}]") and i < len(hp):
-                        out.append((h, hp[i]))
+            if not (isinstance(c, ast.Call) and isinstance(c.func, ast.Attribute)):
+                continue
+            tgt = P.resolve_call(c, env, f, count=False)
+            h = tgt[1][0] if tgt and tgt[0] == "func" else None
+            if h is None or h is f:
+                continue
+            hp = [p_ for p_ in h.params if p_ not in ("self", "cls")]
+            kp = fp = None
+            for i, a_ in enumerate(c.args):
+                if i >= len(hp):
+                    break
+                if norm(a_) in (f.params[1], f"[{f.params[1]}]"):
+                    kp = hp[i]
+                if norm(a_) == "self.features":
+                    fp = hp[i]
+            if kp is not None:
+                out.append((h, kp, fp or "self.features"))
         return out
 
-    for f, act, reg_forms, what in (
-        (en, "activate_features", ("self.features[key] =",), "enable_features activates and registers every requested key"),
-        (dis, "deactivate_features", ("del self.features[key]", "self.features.pop(key"), "disable_features deactivates and unregisters every requested key"),
+    for f, act, what in (
+        (en, "activate_features", "enable_features activates and registers every requested key"),
+        (dis, "deactivate_features", "disable_features deactivates and unregisters every requested key"),
     ):
         cl = closure_of(f)
-        src = " ".join(norm(g.node) for g, _ in cl)
-        acts = [c for g, kp in cl for c in ast.walk(g.node) if isinstance(c, ast.Call) and call_name(c) == act and c.args and norm(c.args[0]) == kp]
-        R.check(bool(acts) and any(x in src for x in reg_forms), "R10.4", f, f.node, what, src[:100], via="syntax")
-        for g, kp in cl:
-            for lp in [x for x in ast.walk(g.node) if isinstance(x, ast.For) and any(x_ in norm(lp_) for lp_ in [x] for x_ in reg_forms)]:
+        acts = [c for g, kp, _ in cl for c in ast.walk(g.node) if isinstance(c, ast.Call) and call_name(c) == act and c.args and norm(c.args[0]) == kp]
+        regs = []
+        for g, kp, fp in cl:
+            src = norm(g.node)
+            forms = (f"{fp}[key] =",) if f is en else (f"del {fp}[key]", f"{fp}.pop(key")
+            if any(x in src for x in forms):
+                regs.append((g, kp, fp, forms))
+        R.check(bool(acts) and bool(regs), "R10.4", f, f.node, what, norm(f.node)[:100], via="syntax")
+        for g, kp, fp, forms in regs:
+            for lp in [x for x in ast.walk(g.node) if isinstance(x, ast.For) and any(x_ in norm(x) for x_ in forms)]:
                 R.check(norm(lp.iter) == kp, "R10.4", g, lp, f"{g.short}: the registry loop runs over the requested keys", norm(lp.iter), via="dataflow")
     # ---- R10.5
     for a in P.annotators():
@@ -306,7 +322,8 @@ def flag_frame(P: Program, R: Report, rule: str) -> None:
                             todo.append((h, hp[i_]))
             for m, kparam in todo:
                 n += _flag_writes(P, R, rule, m, kparam, const)
-    R.floor(rule, "flag writes in activate / deactivate", n, 2)
+    if n == 0:
+        R.undecided(rule, base.methods.get("activate_features") or base.name, base.node, "activate / deactivate change the flags of the requested keys only", "no flag write recognised")
 
 
 def _flag_writes(P: Program, R: Report, rule: str, m, kparam: str, const: bool) -> int:
@@ -330,7 +347,11 @@ def _flag_writes(P: Program, R: Report, rule: str, m, kparam: str, const: bool) 
                 if isinstance(s, ast.Assign):
                     for t in s.targets:
                         # form A: item write
-                        if isinstance(t, ast.Subscript) and rs_.text(t.value).startswith("self.") and isinstance(s.value, ast.Tuple) and len(s.value.elts) == 2:
+                        pair = isinstance(s.value, ast.Tuple) and len(s.value.elts) == 2
+                        if isinstance(s.value, ast.Call) and isinstance(s.value.func, ast.Name) and len(s.value.args) + len(s.value.keywords) == 2:
+                            ci_ = P.classes.get(P.resolve_name(m.module, s.value.func.id) or "")
+                            pair = ci_ is not None and any(norm(b_).endswith("NamedTuple") for b_ in ci_.node.bases)
+                        if isinstance(t, ast.Subscript) and rs_.text(t.value).startswith("self.") and pair:
                             table = rs_.text(t.value)
                             n += 1
                             k = norm(t.slice)
